@@ -24,7 +24,7 @@ TIMEOUT = {'quick': 900, 'thorough': 6 * 3600}
 RULE = ('each run: a seeded history of 4-16 operations over a set of live models (add '
         'Constant/Operation/Prior/Simulator/Summary/Discrepancy/Distance with explicit or '
         'name* names, positional node and constant parents; named (keyword) edges via add_edge; a.become(b) where defined; '
-        'remove_node of leaves; set parameter_names; set/delete observed data; set uses_meta; '
+        'remove_node of leaves and (1 in 4) of inner nodes; set parameter_names; set/delete observed data; set uses_meta; '
         'copy(); save()+load()), each operation applied to a tape-chosen party; after every '
         'step EVERY party is compared with its own reference graph (canonical form with private '
         'constants inlined by value) and its seeded generate() digest. distinct = sequence of '
@@ -38,7 +38,8 @@ COMPONENTS = {
 }
 ASSUMPTIONS = [
     'become(b) only where defined: b in the same model, childless, neither ancestor nor '
-    'descendant of a; only leaves are removed (the statement is silent on inner nodes)',
+    'descendant of a; removing an inner node means: its children lose that parent and keep the '
+    'order of the remaining ones',
     'AdaptiveDistance nodes are excluded: their adaptation lists are aliased between copies '
     'on purpose and change through inference, not editing',
     'a generate() that raises is compared by exception type (graphs whose observed data '
@@ -86,6 +87,9 @@ class RefModel:
         return sorted(n for n, d in self.nodes.items() if d['param'])
 
 
+GAPS = set()
+
+
 def real_canon(model):
     """Canonical form of a real ElfiModel read through its public surface."""
     net = model.source_net
@@ -115,11 +119,12 @@ def real_canon(model):
                 pos.append(('c', sp.dg(pst['_output'])))
             else:
                 pos.append(('n', p))
-        # positional parameters must be 0..k-1
+        # positional parameters must be 0..k-1 (a gap is legitimate only where an inner parent
+        # node was removed; the caller knows which nodes those are)
         params = sorted(net[u][n]['param'] for u in net.predecessors(n)
                         if isinstance(net[u][n]['param'], int))
         if params != list(range(len(params))):
-            pos.append(('BAD-POSITIONS', tuple(params)))
+            GAPS.add((id(model), n))
         named = tuple(sorted((net[u][n]['param'], u) for u in net.predecessors(n)
                              if not isinstance(net[u][n]['param'], int)))
         nodes[n] = (cls, op, tuple(pos), '_parameter' in st, bool(st.get('_uses_meta', False)),
@@ -293,6 +298,24 @@ def _run(tape, out, elfi, root):
     def remove(P):
         m, r = P.model, P.ref
         leaves = [n for n in sorted(r.nodes) if not r.children(n)]
+        inner = [n for n in sorted(r.nodes) if r.children(n)]
+        if inner and tape.chance('remove_inner_node', 1, 4):
+            # removing a node that still has children: the children simply lose that parent
+            # (their remaining positional parents keep their order; a gap in the indices is
+            # legitimate for them from now on)
+            n = tape.choice('remove_inner', inner)
+            m.remove_node(n)
+            r.nodes.pop(n)
+            r.observed.pop(n, None)
+            for d_ in r.nodes.values():
+                if ('n', n) in d_['pos']:
+                    if d_['pos'][-1] != ('n', n) or d_['pos'].count(('n', n)) > 1:
+                        d_['gapped'] = True
+                    d_['pos'] = [e for e in d_['pos'] if e != ('n', n)]
+                for k_ in [k_ for k_, v_ in d_.get('named', {}).items() if v_ == n]:
+                    del d_['named'][k_]
+            out.probes['inner_node_removed'] += 1
+            return 'remove-inner'
         if not leaves:
             return None
         n = tape.choice('remove', leaves)
@@ -411,12 +434,19 @@ def _run(tape, out, elfi, root):
             if bad:
                 out.violate('consistent-dag', bad, step=step, op=done, party=Q.role)
                 return
+            GAPS.clear()
             rn, ro = real_canon(Q.model)
             en, eo = Q.ref.canon()
+            unexpected = [n_ for (_, n_) in GAPS if not Q.ref.nodes.get(n_, {}).get('gapped')]
+            if unexpected:
+                out.violate('consistent-dag', 'positional-gap', step=step, op=done,
+                            party=Q.role, nodes=unexpected[:4])
+                return
             own = Q is P and mutated
             if rn != en or ro != eo:
                 if own:
                     clause = {'become': 'become-semantics', 'remove': 'remove-semantics',
+                              'remove-inner': 'remove-semantics',
                               'set-parameters': 'parameter-names'}.get(done, 'edit-semantics')
                     sig = ''
                 else:
